@@ -15,10 +15,18 @@
    Also for the assignment statement (C06_print_parse_roundtrip_stmt) and at the tie's own fuel
      (C06_print_parse_roundtrip_extracted).
    The earlier operator-layer theorems (C06_pratt_binary_partial etc.) are kept unchanged: the full statement is
-   built on them.  Not modelled in Coq: statements other than the one-line expression / assignment statement. *)
+   built on them.  Not modelled in Coq: statements other than the one-line expression / assignment statement.
+
+   Literal payloads (the tokens TString n are opaque numbers in the theorems above) have their own round trip, at the
+   level of characters (Parse/Escape.v, Parse/EscapeProofs.v):
+     C06_string_literal_roundtrip : for every escape table t with esc_table_ok t (the arms of ast.rs fmt_string_literal,
+       re-extracted on every run, satisfy it: C06_string_escapes_extracted_ok) and every string value s, the lexer model
+       (lexer.rs string / escape / escape_char) reads print_string t s back as s and stops right after the closing quote;
+     C06_bytes_literal_roundtrip : the same for Display of AstLiteral::Bytes and bytes_string / escape_bytes.
+   C06_escape_cr_arm_needed shows the hypothesis is not idle: the table without the CR arm is refused and loses the value. *)
 From Coq Require Import ZArith NArith List Bool.
 From SV Require Import Parse.Tokens Parse.Ast Parse.Model Parse.Grammar Parse.Print Parse.Cases Parse.Proofs
-  Parse.ProofsFull Parse.PrintProofs.
+  Parse.ProofsFull Parse.PrintProofs Parse.Escape Parse.EscapeCases Parse.EscapeProofs.
 Import ListNotations.
 
 (* the tables re-extracted from parser_rd.rs on this run satisfy the well-formedness predicate *)
@@ -147,3 +155,54 @@ Example C06_example_printable :
   printable C06_example_tree = true /\
   run_model (print C06_example_tree) = Ok (SExpr C06_example_tree).
 Proof. vm_compute. split; reflexivity. Qed.
+
+(* ---- literal payloads: the printer's escaping is undone by the lexer ---- *)
+
+(* the arms of fmt_string_literal extracted from ast.rs on this run form a safe table: the closing quote, the backslash,
+   LF and CR have an arm, and the text of every arm decodes to exactly its character *)
+Theorem C06_string_escapes_extracted_ok : esc_table_ok ext_escapes = true.
+Proof. exact ext_escapes_ok. Qed.
+
+(* every string value (any list of code points), printed by fmt_string_literal with a safe table and followed by any
+   text, is read back by the lexer as that value, leaving exactly that text *)
+Theorem C06_string_literal_roundtrip : forall t, esc_table_ok t = true -> forall s rest fuel, (List.length s < fuel)%nat ->
+  lex_string fuel (print_string t s ++ rest) = Some (s, rest).
+Proof. exact string_literal_roundtrip. Qed.
+
+(* at the extracted table with the fuel the tie uses *)
+Theorem C06_string_literal_roundtrip_extracted : forall s, run_lex_string (run_print_string s) = Some (s, []).
+Proof. exact run_string_roundtrip. Qed.
+
+(* the printed literal is a fixed point of lex-then-print; different values print differently *)
+Theorem C06_string_literal_fixpoint : forall t, esc_table_ok t = true -> forall s fuel, (List.length s < fuel)%nat ->
+  exists v, lex_string fuel (print_string t s) = Some (v, []) /\ print_string t v = print_string t s.
+Proof. exact string_literal_fixpoint. Qed.
+
+Theorem C06_string_literal_print_injective : forall t, esc_table_ok t = true ->
+  forall s1 s2, print_string t s1 = print_string t s2 -> s1 = s2.
+Proof. exact print_string_injective. Qed.
+
+(* bytes literals: every list of bytes *)
+Theorem C06_bytes_literal_roundtrip : forall bs, Forall (fun b => b < 256)%N bs -> forall rest fuel, (List.length bs < fuel)%nat ->
+  lex_bytes fuel (print_bytes bs ++ rest) = Some (bs, rest).
+Proof. exact bytes_literal_roundtrip. Qed.
+
+Theorem C06_bytes_literal_roundtrip_extracted : forall bs, Forall (fun b => b < 256)%N bs ->
+  run_lex_bytes (print_bytes bs) = Some (bs, []).
+Proof. exact run_bytes_roundtrip. Qed.
+
+(* the hypothesis esc_table_ok is needed: drop the CR arm and the table is refused - and a value with a CR really is
+   lost, because the lexer ignores a CR between the quotes *)
+Theorem C06_escape_cr_arm_needed :
+  esc_table_ok escapes_without_cr = false /\
+  lex_string 10 (print_string escapes_without_cr [97; 13; 98]%N) = Some ([97; 98]%N, []).
+Proof. exact cr_arm_needed. Qed.
+
+(* a non-trivial value: a CR b NUL quote backslash LF TAB e-acute U+2028 U+1F600 *)
+Example C06_example_string_literal :
+  run_print_string [97; 13; 98; 0; 34; 92; 10; 9; 233; 8232; 128512]%N =
+    [34; 97; 92; 114; 98; 92; 120; 48; 48; 92; 34; 92; 92; 92; 110; 92; 116; 233; 8232; 128512; 34]%N
+  /\ run_lex_string (run_print_string [97; 13; 98; 0; 34; 92; 10; 9; 233; 8232; 128512]%N)
+      = Some ([97; 13; 98; 0; 34; 92; 10; 9; 233; 8232; 128512]%N, [])
+  /\ run_lex_bytes (print_bytes [97; 13; 0; 34; 92; 10; 9; 127; 128; 255]%N) = Some ([97; 13; 0; 34; 92; 10; 9; 127; 128; 255]%N, []).
+Proof. vm_compute. repeat split; reflexivity. Qed.
